@@ -1374,6 +1374,21 @@ class Mailbox:
 
     ##################################################################
     #
+    @staticmethod
+    def check_keywords_storable(seqs: list[str]) -> None:
+        """
+        A keyword is kept as an MH sequence of that name in `.mh_sequences`,
+        an ASCII file of `name: messages` lines. A name with a ':' in it
+        makes that file unreadable for us and for every MH tool, a non-ASCII
+        one can not be written at all. Refuse those before anything has
+        been done.
+        """
+        for seq in seqs:
+            if ":" in seq or not seq.isascii():
+                raise No(f"Can not store the keyword '{seq}'")
+
+    ##################################################################
+    #
     async def _pack_if_necessary(self) -> bool:
         """
         We use the array of message keys from the folder to determine if it is
@@ -1994,6 +2009,7 @@ class Mailbox:
         # Make sure we convert the IMAP flags to the accepted mh sequences.
         #
         seqs = flags_to_seqs(flags)
+        Mailbox.check_keywords_storable(seqs)
 
         # If `Seen` is *NOT* in the sequences, then we need to add `unseen`
         #
@@ -2589,6 +2605,7 @@ class Mailbox:
         # Convert the flags to MH sequence names..
         #
         flags = [flag_to_seq(x) for x in flags]
+        Mailbox.check_keywords_storable(flags)
         store_start = time.monotonic()
 
         notifications: list[str] = []
